@@ -643,6 +643,7 @@ func (c *c02Run) endToEnd(tier string) {
 		}
 	}
 	c.refusals()
+	c.largeTables(tier)
 	c.encodingPaths(tier)
 }
 
@@ -650,6 +651,72 @@ func (c *c02Run) endToEnd(tier string) {
 // TAB and fixed-length values with a line break or too long for their field are refused while the records are
 // encoded; nothing may reach the --out file / stdout, whether the refusal comes in the first record or after
 // several buffers of output; an INSERT + COMMIT of such a value must leave the committed file unchanged.
+// tables larger than the loaders' buffers (the record set is re-allocated when record 301 arrives, and again
+// later): a file written by csvq from N generated records must load back with exactly those N records, in
+// order, and an INSERT + COMMIT by a second process must leave N + 1 records
+func (c *c02Run) largeTables(tier string) {
+	sizes := []int{299, 300, 301, 302, 450, 601, 1000}
+	if tier == "thorough" {
+		sizes = append(sizes, 150, 151, 599, 600, 900, 901, 2500, 10001)
+	}
+	to := 60 * time.Second
+	for _, format := range []string{"CSV", "TSV", "LTSV", "JSONL"} {
+		for _, n := range sizes {
+			sc := newScratch()
+			rows := make([][]*string, n)
+			for i := range rows {
+				rows[i] = []*string{sp(fmt.Sprint(i)), sp(fmt.Sprintf("v%d", (i*7919)%1000))}
+			}
+			writeCSV(sc.Path("src.csv"), []string{"k", "v"}, rows)
+			ext := map[string]string{"CSV": "csv", "TSV": "tsv", "LTSV": "ltsv", "FIXED": "txt", "JSONL": "jsonl"}[format]
+			out := "big." + ext
+			w := runCsvq(sc.Dir, []string{"--repository", sc.Dir, "--quiet", "-f", format, "--out", out, "SELECT k, v FROM src"}, "", to)
+			cs := map[string]interface{}{"kind": "large-table", "format": format, "records": n}
+			c.meta.Evaluations++
+			c.meta.Distribution["e2e-large:"+format]++
+			fail := func(what string) {
+				c.meta.Direct = append(c.meta.Direct, DirectViolation{Key: "large-table", What: fmt.Sprintf("%s table of %d records: %s", format, n, what), Case: cs})
+			}
+			if w.Code != 0 {
+				fail("writing failed: " + strings.TrimSpace(w.Stderr))
+				sc.Close()
+				continue
+			}
+			read := func() (int, string, string) {
+				r := runCsvq(sc.Dir, []string{"--repository", sc.Dir, "--quiet", "-f", "CSV", "SELECT COUNT(*), MIN(INTEGER(k)), MAX(INTEGER(k)), SUM(INTEGER(k)) FROM `" + out + "`"}, "", to)
+				f := r.Stdout
+				first := runCsvq(sc.Dir, []string{"--repository", sc.Dir, "--quiet", "-f", "CSV", "SELECT k, v FROM `" + out + "` LIMIT 1"}, "", to)
+				return r.Code, strings.TrimSpace(f), strings.TrimSpace(first.Stdout) + strings.TrimSpace(r.Stderr)
+			}
+			want := func(m int, extra int) string {
+				sum := (n - 1) * n / 2
+				mx := n - 1
+				if extra >= 0 {
+					sum += extra
+					if extra > mx {
+						mx = extra
+					}
+				}
+				return fmt.Sprintf("%d,0,%d,%d", m, mx, sum)
+			}
+			code, got, first := read()
+			cs["count_min_max_sum"] = got
+			if code != 0 || !strings.HasSuffix(got, want(n, -1)) {
+				fail(fmt.Sprintf("re-import gives COUNT,MIN,MAX,SUM of the key = %q, expected %s (first record: %s)", got, want(n, -1), first))
+			} else if !strings.Contains(first, "0,v0") {
+				fail("the first record after re-import is not the first record written: " + first)
+			}
+			ins := runCsvq(sc.Dir, []string{"--repository", sc.Dir, "--quiet", "INSERT INTO `" + out + "` VALUES (1000000, 'last')"}, "", to)
+			code, got, _ = read()
+			cs["after_insert"] = got
+			if ins.Code != 0 || code != 0 || !strings.HasSuffix(got, want(n+1, 1000000)) {
+				fail(fmt.Sprintf("after INSERT + COMMIT by a second process the file holds COUNT,MIN,MAX,SUM = %q, expected %s (%s)", got, want(n+1, 1000000), strings.TrimSpace(ins.Stderr)))
+			}
+			sc.Close()
+		}
+	}
+}
+
 func (c *c02Run) refusals() {
 	type scen struct {
 		format, what, bad string
